@@ -19,34 +19,45 @@ import (
 func init() { Register(&Check{ID: "C14", Level: "fault_enumeration", Run: runC14}) }
 
 // faultBank decorates the real bank keeper: the k-th mutating call fails (no side effect) when k is in fail.
+// Two kinds of failure are injected: a clean one (no side effect) and a half-way one, in which the
+// operation is carried out for the first denomination only before the error is returned - which is
+// what the SDK's bank module itself does when a later denomination cannot be debited.
 type faultBank struct {
 	bankkeeper.Keeper
-	fail  map[int]bool
-	n     int
-	calls []string
-	hit   int
+	fail    map[int]bool
+	partial map[int]bool
+	n       int
+	calls   []string
+	hit     int
 }
 
-func (f *faultBank) step(kind string) error {
+// step returns (error to return, whether the first denomination is to be moved before failing)
+func (f *faultBank) step(kind string) (error, bool) {
 	i := f.n
 	f.n++
 	f.calls = append(f.calls, kind)
 	if f.fail[i] {
 		f.hit++
-		return sdkerrors.Wrapf(sdkerrors.ErrInsufficientFunds, "injected fault at bank call %d (%s)", i, kind)
+		return sdkerrors.Wrapf(sdkerrors.ErrInsufficientFunds, "injected fault at bank call %d (%s)", i, kind), f.partial[i]
 	}
-	return nil
+	return nil, false
 }
 
 func (f *faultBank) SendCoinsFromAccountToModule(ctx sdk.Context, a sdk.AccAddress, m string, amt sdk.Coins) error {
-	if err := f.step("sweep-base"); err != nil {
+	if err, half := f.step("sweep-base"); err != nil {
+		if half && len(amt) > 1 {
+			_ = f.Keeper.SendCoinsFromAccountToModule(ctx, a, m, amt[:1])
+		}
 		return err
 	}
 	return f.Keeper.SendCoinsFromAccountToModule(ctx, a, m, amt)
 }
 
 func (f *faultBank) SendCoinsFromModuleToAccount(ctx sdk.Context, m string, a sdk.AccAddress, amt sdk.Coins) error {
-	if err := f.step("pay-base"); err != nil {
+	if err, half := f.step("pay-base"); err != nil {
+		if half && len(amt) > 1 {
+			_ = f.Keeper.SendCoinsFromModuleToAccount(ctx, m, a, amt[:1])
+		}
 		return err
 	}
 	return f.Keeper.SendCoinsFromModuleToAccount(ctx, m, a, amt)
@@ -57,14 +68,20 @@ func (f *faultBank) SendCoinsFromModuleToModule(ctx sdk.Context, s, r string, am
 	if r == dtypes.DistributorMainAccount {
 		kind = "sweep-module"
 	}
-	if err := f.step(kind); err != nil {
+	if err, half := f.step(kind); err != nil {
+		if half && len(amt) > 1 {
+			_ = f.Keeper.SendCoinsFromModuleToModule(ctx, s, r, amt[:1])
+		}
 		return err
 	}
 	return f.Keeper.SendCoinsFromModuleToModule(ctx, s, r, amt)
 }
 
 func (f *faultBank) BurnCoins(ctx sdk.Context, m string, amt sdk.Coins) error {
-	if err := f.step("burn"); err != nil {
+	if err, half := f.step("burn"); err != nil {
+		if half && len(amt) > 1 {
+			_ = f.Keeper.BurnCoins(ctx, m, amt[:1])
+		}
 		return err
 	}
 	return f.Keeper.BurnCoins(ctx, m, amt)
@@ -116,15 +133,19 @@ func runC14(rc *RunCtx) {
 	perBound := map[int]int{}
 
 	type job struct {
-		ci   int
-		fail []int
+		ci      int
+		fail    []int
+		partial []int // subset of fail that fails half-way
 	}
 	// first pass: fault-free twins (also gives the number of calls per configuration)
 	twins := make([]*c14Run, len(cfgs))
-	exec := func(w *harness.World, cfg dcfg, fail []int, check bool) *c14Run {
-		fb := &faultBank{Keeper: w.App.BankKeeper, fail: map[int]bool{}}
+	exec := func(w *harness.World, cfg dcfg, fail []int, partial []int, check bool) *c14Run {
+		fb := &faultBank{Keeper: w.App.BankKeeper, fail: map[int]bool{}, partial: map[int]bool{}}
 		for _, i := range fail {
 			fb.fail[i] = true
+		}
+		for _, i := range partial {
+			fb.partial[i] = true
 		}
 		k := faultKeeper(w, fb)
 		ctx := harness.Branch(w.Root())
@@ -137,8 +158,8 @@ func runC14(rc *RunCtx) {
 		srcs := cfg.sources()
 		var hist []string
 		report := func(sig, what string) {
-			rc.Violate(&explore.Violation{Property: "C14", Sig: "C14:" + sig, What: fmt.Sprintf("%s faults=%v: %s", cfg, fail, what), Path: append([]string{}, hist...),
-				Detail: map[string]interface{}{"config": cfg, "config_str": cfg.String(), "failing_calls": fail, "calls": fb.calls}})
+			rc.Violate(&explore.Violation{Property: "C14", Sig: "C14:" + sig, What: fmt.Sprintf("%s faults=%v half-way=%v: %s", cfg, fail, partial, what), Path: append([]string{}, hist...),
+				Detail: map[string]interface{}{"config": cfg, "config_str": cfg.String(), "failing_calls": fail, "half_way": partial, "calls": fb.calls}})
 		}
 		blk := func(p inflowPat, withFaults bool) {
 			applyInflow(w, ctx, nil, srcs, p)
@@ -191,9 +212,30 @@ func runC14(rc *RunCtx) {
 		if worlds[wk] == nil {
 			worlds[wk] = harness.NewWorld(genesis, harness.T0)
 		}
-		twins[ci] = exec(worlds[wk], cfgs[ci], nil, true)
+		twins[ci] = exec(worlds[wk], cfgs[ci], nil, nil, true)
 	})
 	var jobs []job
+	// every fault set is run with all failures clean, and with every non-empty subset of them failing
+	// half-way (up to 3 failures; for larger sets: all half-way and each one alone half-way)
+	addJobs := func(js *[]job, ci int, f []int) {
+		*js = append(*js, job{ci, f, nil})
+		if len(f) <= 3 {
+			for mask := 1; mask < 1<<uint(len(f)); mask++ {
+				var p []int
+				for i := range f {
+					if mask&(1<<uint(i)) != 0 {
+						p = append(p, f[i])
+					}
+				}
+				*js = append(*js, job{ci, f, p})
+			}
+			return
+		}
+		*js = append(*js, job{ci, f, f})
+		for _, x := range f {
+			*js = append(*js, job{ci, f, []int{x}})
+		}
+	}
 	for ci := range cfgs {
 		if twins[ci] == nil {
 			continue
@@ -213,14 +255,14 @@ func runC14(rc *RunCtx) {
 						f = append(f, i)
 					}
 				}
-				jobs = append(jobs, job{ci, f})
+				addJobs(&jobs, ci, f)
 				perBound[len(f)]++
 			}
 		} else {
 			var gen func(start int, cur []int)
 			gen = func(start int, cur []int) {
 				if len(cur) > 0 {
-					jobs = append(jobs, job{ci, append([]int{}, cur...)})
+					addJobs(&jobs, ci, append([]int{}, cur...))
 					perBound[len(cur)]++
 				}
 				if len(cur) == bound {
@@ -233,6 +275,7 @@ func runC14(rc *RunCtx) {
 			gen(0, nil)
 		}
 	}
+	addJobs = nil
 	ParallelFor(rc.Workers, len(jobs), func(wk, ji int) {
 		j := jobs[ji]
 		w := worlds[wk]
@@ -241,7 +284,7 @@ func runC14(rc *RunCtx) {
 			worlds[wk] = w
 		}
 		cfg := cfgs[j.ci]
-		r := exec(w, cfg, j.fail, true)
+		r := exec(w, cfg, j.fail, j.partial, true)
 		atomic.AddInt64(&runs, 1)
 		if r == nil {
 			return
@@ -254,7 +297,7 @@ func runC14(rc *RunCtx) {
 			for _, d := range []string{harness.Denom, denomB} {
 				diff := b.AmountOf(d).Sub(tw.bals[acc].AmountOf(d)).Abs()
 				if diff.GT(sdk.OneInt()) {
-					rc.Violate(&explore.Violation{Property: "C14", Sig: "C14:not-made-up:" + accKind(acc), What: fmt.Sprintf("%s faults=%v (%v): after the fault-free suffix %s holds %s%s, the fault-free twin %s%s", cfg, j.fail, kindsOf(r.kinds, j.fail), acc, b.AmountOf(d), d, tw.bals[acc].AmountOf(d), d),
+					rc.Violate(&explore.Violation{Property: "C14", Sig: "C14:not-made-up:" + accKind(acc), What: fmt.Sprintf("%s faults=%v half-way=%v (%v): after the fault-free suffix %s holds %s%s, the fault-free twin %s%s", cfg, j.fail, j.partial, kindsOf(r.kinds, j.fail), acc, b.AmountOf(d), d, tw.bals[acc].AmountOf(d), d),
 						Detail: map[string]interface{}{"config": cfg, "failing_calls": j.fail, "calls": r.kinds}})
 				}
 			}
@@ -278,7 +321,7 @@ func runC14(rc *RunCtx) {
 		"samples": samples, "configurations": len(cfgs), "max_calls_in_faulty_blocks": int(maxCalls), "fault_sets_by_size": perBound,
 		"bank_call_kinds_seen_in_twins": kindsSeen, "deviation_bound_completed": bound, "exhaustive": true,
 	}
-	rc.Assume = []string{"a failing bank call has no side effect and returns an SDK error", "module level with a cfedistributor keeper built by the exported NewKeeper over the app's own store keys"}
+	rc.Assume = []string{"a failing bank call either has no side effect or (half-way failure) has moved the first denomination only, like the SDK's own bank send", "module level with a cfedistributor keeper built by the exported NewKeeper over the app's own store keys"}
 }
 
 func accKind(a string) string {
